@@ -1,4 +1,49 @@
+(* C01 — every query cell gets one complete, ordered, tree-consistent assignment.
+   Property theorems only. *)
 From Coq Require Import ZArith List Bool.
-From CTM Require Import Model.Election.
-Theorem c01_placeholder : True. Proof. exact I. Qed.
-Print Assumptions c01_placeholder.
+From CTM Require Import Base.Sx Base.SortX Model.Tree Model.Election Proofs.ElectionP.
+Import ListNotations.
+Open Scope Z_scope.
+
+(* For EVERY decision procedure that returns one record per cell, each naming a child
+   of the parent it was asked about (that is all the routing needs of the bootstrapped
+   vote), every taxonomy meeting tree_ok, every list of cells and every generator
+   state: a successful run yields exactly one row per cell, in cell order, and each
+   row is a root-to-leaf path: the assignment at every level is a node of that level
+   and a child of the assignment one level up. *)
+Theorem c01_path_consistent :
+  forall (cell rng : Type)
+         (decide : rng -> option (nat * node) -> list node -> list cell -> list rec * rng),
+    (forall g p kids cs, Forall (fun r => In (asg r) kids) (fst (decide g p kids cs))) ->
+    forall t cells g rows g',
+      tree_ok t ->
+      run_type_assignment cell rng decide t cells g = Ok (rows, g') ->
+      spec_routing t (length cells) rows = true.
+Proof. exact routing_sound. Qed.
+Print Assumptions c01_path_consistent.
+
+(* ... and the run does succeed: no cell is ever stranded, whatever the branching
+   (single-child chains, single-node levels), provided every non-leaf node has a child *)
+Theorem c01_total :
+  forall (cell rng : Type)
+         (decide : rng -> option (nat * node) -> list node -> list cell -> list rec * rng),
+    (forall g p kids cs, length (fst (decide g p kids cs)) = length cs) ->
+    (forall g p kids cs, Forall (fun r => In (asg r) kids) (fst (decide g p kids cs))) ->
+    forall t cells g,
+      tree_ok t ->
+      exists rows g', run_type_assignment cell rng decide t cells g = Ok (rows, g').
+Proof. exact routing_total. Qed.
+Print Assumptions c01_total.
+
+(* non-vacuity: a 3-level taxonomy with a single top node and a single-child chain *)
+Definition ex_tree : tree :=
+  [ [(1, [10; 11])]; [(10, [100]); (11, [110; 111])]; [(100, []); (110, []); (111, [])] ].
+Definition ex_decide (g : nat) (p : option (nat * node)) (kids : list node) (cs : list Z) : list rec * nat :=
+  (map (fun c => {| asg := if Z.even c then hd 0 kids else last kids 0; prob := (3, 4); corr := Some (1, 2);
+                    runners := []; agg := one |}) cs, S g).
+Example c01_example :
+  match run_type_assignment Z nat ex_decide ex_tree [5; 6; 7] 0%nat with
+  | Ok (rows, _) => spec_routing ex_tree 3 rows = true /\ map (map asg) rows = [[1; 11; 111]; [1; 10; 100]; [1; 11; 111]]
+  | _ => False
+  end.
+Proof. vm_compute. split; reflexivity. Qed.
